@@ -118,6 +118,11 @@ func (c11) Generate(seed uint64, tier string, index int) any {
 		min = 12
 	}
 	sc.Tr = g.TransportFor(min, 2*treeBytes(&sc.Src)+treeBytes(&sc.Dst))
+	if arr != "A4" && g.R.Intn(6) == 0 {
+		// prior state left by a killed earlier sync: files renamed into place
+		// but not yet re-timed/re-owned, directories still temporarily writable
+		sc.Kill = &KillPoint{PerMille: g.R.Intn(1001)}
+	}
 	return &C11Scenario{Mode: "sync", Sync: sc, NonRoot: nonRoot}
 }
 
@@ -135,6 +140,7 @@ func (c11) Run(t *testing.T, scenario any, job *Job, res *Result) {
 		res.Invalid = err.Error()
 		return
 	}
+	res.Merge(out.Pre)
 	res.AddSession(out.S)
 	tag := ":" + receiverSide(sc.Sync.Arr)
 	if !sessionSucceeded(res, out.S, "") {
